@@ -144,6 +144,49 @@ def aborted_then_completed(a):
     return out
 
 
+def manual_commit(a):
+    """(child) the manual two-phase flow: several fillers with `auto_update_dataset=False` — one writing into the split directory itself,
+    one into a sub-directory of the same split, one into another split — and ONE `write_config` with all their infos (in either order).
+    A completed session: afterwards the dataset holds the old examples plus everything the fillers wrote, exactly once."""
+    from pathlib import Path
+    import shutil
+    from harness.core import sp
+    from harness.checks import tree_common as T
+    sp.sedpack()
+    from sedpack.io import Dataset
+    from sedpack.io.dataset_filler import DatasetFiller
+    root = Path(a["root"]); shutil.rmtree(root, ignore_errors=True)
+    ds = sp.mk(root, fmt=a["fmt"], eps=2, hashes=tuple(a["hashes"]))
+    want = {"train": [], "test": []}
+    def fill(filler, plan):
+        with filler as f:
+            for split, lo, n in plan:
+                for v in range(lo, lo + n):
+                    f.write_example(values=sp.val(v), split=split); want[split].append(v)
+        return filler
+    res = {"case": {k: a[k] for k in a if k != "root"}}
+    try:
+        fill(ds.filler(), [("train", 0, 3)])
+        d = Dataset(root) if a["reopen"] else ds
+        sub = fill(DatasetFiller(d, relative_path_from_split=Path("part_a"), auto_update_dataset=False), [("train", 10, 4)])
+        top = fill(DatasetFiller(d, auto_update_dataset=False), [("train", 20, 3), ("test", 30, 2)])
+        deep = fill(DatasetFiller(d, relative_path_from_split=Path("part_a/inner"), auto_update_dataset=False), [("test", 40, 1)])
+        groups = [sub.get_updated_infos(), top.get_updated_infos(), deep.get_updated_infos()]
+        order = a["order"]
+        d.write_config(updated_infos=[i for k in order for i in groups[k]])
+        problems, _ = T.recount(root)
+        res["problems"] = problems[:4]
+        fresh = Dataset(root)
+        res["got"] = {s: sorted(sp.read_ids(fresh, s)) for s in want}
+        res["want"] = {s: sorted(v) for s, v in want.items()}
+        res["same_handle"] = {s: sorted(sp.read_ids(d, s)) for s in want}
+        res["recorded"] = {s: fresh._dataset_info.splits[s].number_of_examples if s in fresh._dataset_info.splits else None for s in want}
+    except Exception as e:  # noqa: BLE001
+        res["error"] = f"{type(e).__name__}: {str(e)[:200]}"
+    shutil.rmtree(root, ignore_errors=True)
+    return res
+
+
 def locale_phase(a):
     """(child; phase `continue` runs with LC_ALL=C and UTF-8 mode off, i.e. with an ASCII default text encoding) a dataset whose lists
     hold non-ASCII shard metadata is continued by a process with another locale, into the same directories."""
@@ -202,6 +245,15 @@ def run(ctx):
             ctx.report({"kind": "append-only", "other_locale": True},
                        f"sessions by a process with default text encoding {mid['encoding']} ({[s_['outcome'] for s_ in mid['sessions']]}) into directories whose lists hold non-ASCII metadata: "
                        f"the dataset now returns {after['ids']}, expected {want} (lost {sorted(set(want) - set(after['ids'] if isinstance(after['ids'], list) else []))[:8]})", {"case": la, "sessions": mid["sessions"], "before": before, "after": after})
+    # ---- several held-back fillers (split directory, sub-directory, nested sub-directory, two splits) committed by ONE write_config
+    for j, order in enumerate([[0, 1, 2], [1, 0, 2], [2, 1, 0]][: ctx.pick(2, 3)]):
+        ma = {"root": str(ctx.scratch / f"c08_manual{j}"), "fmt": ["fb", "npz", "tfrec"][(j + ctx.seed) % 3], "hashes": [["sha256"], [], ["md5"]][j % 3], "order": order, "reopen": bool(j % 2)}
+        r = child.call("harness.checks.c08", "manual_commit", ma, timeout=600)
+        bad = r.get("error") or r.get("problems") or r["got"] != r["want"] or r["same_handle"] != r["want"] or any(r["recorded"][s_] != len(r["want"][s_]) for s_ in r["want"])
+        if bad:
+            ctx.report({"kind": "append-only", "manual_commit": True},
+                       f"three fillers with auto_update_dataset=False committed by one write_config (info order {order}): {r.get('error') or r.get('problems') or ''} "
+                       f"read back {r.get('got')} (recorded {r.get('recorded')}), written {r.get('want')}", {"case": r["case"], "result": {k: v for k, v in r.items() if k != 'case'}})
     nest = child.call("harness.checks.c08", "nested_sessions",
                       [{"root": str(ctx.scratch / f"c08n_{i}"), "fmt": ["fb", "npz", "tfrec"][i % 3], "eps": 1 + i % 3, "multi": bool(i % 2)} for i in range(ctx.pick(3, 9))], timeout=900)
     for r in nest:
